@@ -94,7 +94,7 @@ fn short(b: &[u8]) -> String {
 fn checksum_part(rep: &Reporter, args: &Args) {
     let n = common::workers();
     let seed = args.seed;
-    let total = args.qt(400_000u64, 20_000_000u64);
+    let total = args.qt(2_000_000u64, 150_000_000u64);
     let results = common::parallel(n, move |shard, nshards| {
         let mut local = Local::default();
         let mut bad = BTreeMap::new();
@@ -206,7 +206,7 @@ fn codec_part(rep: &Reporter, args: &Args) {
     ];
     let mut local = Local::default();
     let mut bad: BTreeMap<String, Value> = BTreeMap::new();
-    let nseq = args.qt(120, 1500);
+    let nseq = args.qt(400, 6000);
     for s in 0..nseq {
         let cnt = r.range(1, 3) as usize;
         let mut stream = vec![];
@@ -326,7 +326,7 @@ fn reply_part(rep: &Reporter, args: &Args) {
     let mut r = Rng::derive(args.seed, 0xc11d, 0);
     let mut local = Local::default();
     let mut bad: BTreeMap<String, Value> = BTreeMap::new();
-    let rounds = args.qt(400, 20_000);
+    let rounds = args.qt(2000, 100_000);
     let peer4 = IpAddr::V4(Ipv4Addr::new(192, 0, 2, 77));
     let peer6: IpAddr = "2001:db8::77".parse().unwrap();
     for _ in 0..rounds {
